@@ -218,3 +218,16 @@ def finish(prop_id, tier, seed, level, acc, rule, assumptions, t0, extra_cov=Non
             print("INCONCLUSIVE property=%s reason=%s" % (prop_id, " ".join(str(r)[-400:].split())))
         return 2
     return 0
+
+
+def require_vnet_fidelity(acc):
+    """Network checks only: the substituted transport must agree with the real loopback on the scripted call sequence;
+    a disagreement makes the run inconclusive (the model is wrong), never violated."""
+    try:
+        from . import selftest
+        d = selftest.compare()
+    except BaseException as e:
+        d = [("selftest-crashed", repr(e), None)]
+    acc.extra["vnet_fidelity_selftest"] = "ok" if not d else ["%s: real=%s fake=%s" % x for x in d]
+    if d:
+        acc.inconclusive.append("vnet fidelity self-test disagrees with the real loopback: %s" % (d[:3],))
